@@ -84,7 +84,75 @@ def cstr (buf : Array UInt8) : Except Fault Bytes :=
 
 def hasFlag (headers flag : Nat) : Bool := headers &&& flag ≠ 0
 
-/-- `kwajd_read_headers(sys, fh, hdr)`; `fill` = contents of fresh allocations -/
+/-- 4 bytes: length of unpacked file (if the flag says so) -/
+def readOptLength (hdr : Header) (r : Rd) : Except Err Header × Rd :=
+  if hasFlag hdr.headers hdrHASLENGTH then
+    match r.readExact 4 with
+    | none => (.error .read, (r.read 4).2)
+    | some (b, r) => (.ok { hdr with length := u32At b 0 }, r)
+  else (.ok hdr, r)
+
+/-- 2 bytes: unknown purpose -/
+def skipUnknown1 (headers : Nat) (r : Rd) : Except Err Unit × Rd :=
+  if hasFlag headers hdrHASUNKNOWN1 then
+    match r.readExact 2 with
+    | none => (.error .read, (r.read 2).2)
+    | some (_, r) => (.ok (), r)
+  else (.ok (), r)
+
+/-- 2 bytes: length of section, then [length] bytes: unknown purpose -/
+def skipUnknown2 (headers : Nat) (r : Rd) : Except Err Unit × Rd :=
+  if hasFlag headers hdrHASUNKNOWN2 then
+    match r.readExact 2 with
+    | none => (.error .read, (r.read 2).2)
+    | some (b, r) => (.ok (), r.seekCur (u16At b 0))
+  else (.ok (), r)
+
+/-- filename and extension, assembled in a 13-byte allocation -/
+def readNames (fill : UInt8) (hdr : Header) (r : Rd) : Except Fault (Except Err Header × Rd) :=
+  if hasFlag hdr.headers (hdrHASFILENAME ||| hdrHASFILEEXT) then
+    -- allocate memory for maximum length filename
+    let fnbuf : Array UInt8 := Array.replicate 13 fill
+    -- copy filename if present
+    let a : Except Fault (Except Err (Array UInt8 × Nat) × Rd) :=
+      if hasFlag hdr.headers hdrHASFILENAME then readNamePart r 9 fnbuf 0
+      else .ok (.ok (fnbuf, 0), r)
+    match a with
+    | .error f => .error f
+    | .ok (.error e, r) => .ok (.error e, r)
+    | .ok (.ok (fnbuf, fn), r) =>
+    -- copy extension if present
+    let b : Except Fault (Except Err (Array UInt8 × Nat) × Rd) :=
+      if hasFlag hdr.headers hdrHASFILEEXT then
+        if h : fn < fnbuf.size then readNamePart r 4 (fnbuf.set fn 0x2E) (fn + 1)
+        else .error (.oob "kwajd_read_headers: *fn++ = '.'")
+      else .ok (.ok (fnbuf, fn), r)
+    match b with
+    | .error f => .error f
+    | .ok (.error e, r) => .ok (.error e, r)
+    | .ok (.ok (fnbuf, fn), r) =>
+      -- `*fn = '\0'`
+      if h : fn < fnbuf.size then
+        match cstr (fnbuf.set fn 0) with
+        | .error f => .error f
+        | .ok s => .ok (.ok { hdr with filename := some s }, r)
+      else .error (.oob "kwajd_read_headers: *fn = 0")
+  else .ok (.ok hdr, r)
+
+/-- 2 bytes: extra text length then [length] bytes of extra text data -/
+def readExtra (hdr : Header) (r : Rd) : Except Err Header × Rd :=
+  if hasFlag hdr.headers hdrHASEXTRATEXT then
+    match r.readExact 2 with
+    | none => (.error .read, (r.read 2).2)
+    | some (b, r) =>
+      let i := u16At b 0
+      match r.readExact i with
+      | none => (.error .read, (r.read i).2)
+      | some (ex, r) => (.ok { hdr with extra := some ex, extraLength := i }, r)
+  else (.ok hdr, r)
+
+/-- `kwajd_read_headers(sys, fh, hdr)`; `fill` = contents of fresh allocations.  (The optional parts are
+    separate functions so that each can be reasoned about on its own.) -/
 def readHeaders (fill : UInt8) (r : Rd) : Except Fault (Except Err Header × Rd) :=
   -- read in the header
   match r.readExact kwajhSIZEOF with
@@ -96,80 +164,19 @@ def readHeaders (fill : UInt8) (r : Rd) : Except Fault (Except Err Header × Rd)
     let hdr : Header :=
       { compType := u16At buf 8, dataOffset := u16At buf 10, headers := u16At buf 12,
         length := 0, filename := none, extra := none, extraLength := 0 }
-    -- 4 bytes: length of unpacked file
-    let step1 : Except Err Header × Rd :=
-      if hasFlag hdr.headers hdrHASLENGTH then
-        match r.readExact 4 with
-        | none => (.error .read, (r.read 4).2)
-        | some (b, r) => (.ok { hdr with length := u32At b 0 }, r)
-      else (.ok hdr, r)
-    match step1 with
+    match readOptLength hdr r with
     | (.error e, r) => .ok (.error e, r)
     | (.ok hdr, r) =>
-    -- 2 bytes: unknown purpose
-    let step2 : Except Err Unit × Rd :=
-      if hasFlag hdr.headers hdrHASUNKNOWN1 then
-        match r.readExact 2 with
-        | none => (.error .read, (r.read 2).2)
-        | some (_, r) => (.ok (), r)
-      else (.ok (), r)
-    match step2 with
+    match skipUnknown1 hdr.headers r with
     | (.error e, r) => .ok (.error e, r)
     | (.ok (), r) =>
-    -- 2 bytes: length of section, then [length] bytes: unknown purpose
-    let step3 : Except Err Unit × Rd :=
-      if hasFlag hdr.headers hdrHASUNKNOWN2 then
-        match r.readExact 2 with
-        | none => (.error .read, (r.read 2).2)
-        | some (b, r) => (.ok (), r.seekCur (u16At b 0))
-      else (.ok (), r)
-    match step3 with
+    match skipUnknown2 hdr.headers r with
     | (.error e, r) => .ok (.error e, r)
     | (.ok (), r) =>
-    -- filename and extension
-    let step4 : Except Fault (Except Err Header × Rd) :=
-      if hasFlag hdr.headers (hdrHASFILENAME ||| hdrHASFILEEXT) then
-        -- allocate memory for maximum length filename
-        let fnbuf : Array UInt8 := Array.replicate 13 fill
-        -- copy filename if present
-        let a : Except Fault (Except Err (Array UInt8 × Nat) × Rd) :=
-          if hasFlag hdr.headers hdrHASFILENAME then readNamePart r 9 fnbuf 0
-          else .ok (.ok (fnbuf, 0), r)
-        match a with
-        | .error f => .error f
-        | .ok (.error e, r) => .ok (.error e, r)
-        | .ok (.ok (fnbuf, fn), r) =>
-        -- copy extension if present
-        let b : Except Fault (Except Err (Array UInt8 × Nat) × Rd) :=
-          if hasFlag hdr.headers hdrHASFILEEXT then
-            if h : fn < fnbuf.size then readNamePart r 4 (fnbuf.set fn 0x2E) (fn + 1)
-            else .error (.oob "kwajd_read_headers: *fn++ = '.'")
-          else .ok (.ok (fnbuf, fn), r)
-        match b with
-        | .error f => .error f
-        | .ok (.error e, r) => .ok (.error e, r)
-        | .ok (.ok (fnbuf, fn), r) =>
-          -- `*fn = '\0'`
-          if h : fn < fnbuf.size then
-            match cstr (fnbuf.set fn 0) with
-            | .error f => .error f
-            | .ok s => .ok (.ok { hdr with filename := some s }, r)
-          else .error (.oob "kwajd_read_headers: *fn = 0")
-      else .ok (.ok hdr, r)
-    match step4 with
+    match readNames fill hdr r with
     | .error f => .error f
     | .ok (.error e, r) => .ok (.error e, r)
-    | .ok (.ok hdr, r) =>
-    -- 2 bytes: extra text length then [length] bytes of extra text data
-    if hasFlag hdr.headers hdrHASEXTRATEXT then
-      match r.readExact 2 with
-      | none => .ok (.error .read, (r.read 2).2)
-      | some (b, r) =>
-        let i := u16At b 0
-        match r.readExact i with
-        | none => .ok (.error .read, (r.read i).2)
-        | some (ex, r) => .ok (.ok { hdr with extra := some ex, extraLength := i }, r)
-    else .ok (.ok hdr, r)
+    | .ok (.ok hdr, r) => .ok (readExtra hdr r)
 
 /-- an open KWAJ file: `struct mskwajd_header_p` -/
 structure Handle where
